@@ -4,6 +4,7 @@ package interp
 // and the per-path entry point.
 
 import (
+	"symgo/term"
 	"runtime"
 	"crypto/sha256"
 	"encoding/hex"
@@ -204,13 +205,20 @@ func (sh *Shared) RunPath(h *ssa.Function, prefix []Decision, s *solver.Solver, 
 			}
 		case *abortPath:
 			res.Status, res.Reason = r.Kind, r.Reason
+			if r.Kind == "goroutine-panic" {
+				res.Status = "crash"
+				recordCrash(i, "goroutine: "+r.Reason)
+			}
 			if os.Getenv("SYMGO_DEBUG") != "" && r.Kind == "goroutine-panic" {
 				buf := make([]byte, 6000)
 				buf = buf[:runtime.Stack(buf, false)]
 				fmt.Fprintf(os.Stderr, "abort at path end: %v\n%s\n", r, buf)
 			}
 		default:
-			res.Status, res.Reason = "panic", panicString(r)
+			// an unrecovered panic of the code under test: in the node the process dies. This
+			// is the implicit assertion of every harness (label crash.unrecovered-panic).
+			res.Status, res.Reason = "crash", panicString(r)
+			recordCrash(i, res.Reason)
 		}
 		func() {
 			defer func() {
@@ -226,10 +234,26 @@ func (sh *Shared) RunPath(h *ssa.Function, prefix []Decision, s *solver.Solver, 
 	call(i, root, h.Pos(), h, nil)
 	i.sched.quiesce()
 	if len(i.sched.crashed) > 0 {
-		res.Status = "goroutine-panic"
-		res.Reason = panicString(i.sched.crashed[0].panicv)
+		res.Status = "crash"
+		res.Reason = "goroutine: " + panicString(i.sched.crashed[0].panicv)
+		recordCrash(i, res.Reason)
 	}
 	return res
+}
+
+// CrashLabel is the implicit assertion of every harness.
+const CrashLabel = "crash.unrecovered-panic"
+
+func recordCrash(i *interpreter, reason string) {
+	defer func() {
+		if r := recover(); r != nil {
+			if ap, ok := r.(*abortPath); ok && ap.Kind == "assert-end" {
+				return
+			}
+			i.ps.Res.Unknowns++
+		}
+	}()
+	(&frame{i: i, g: i.sched.main}).assertProp(CrashLabel, term.False, reason)
 }
 
 // globalAddr returns the address of global g, initialising its package on first use.
